@@ -13,6 +13,7 @@ def opOfJson (j : Json) : R Op := do
   | "addSub" => return .addSub (← locOfJson (← idx j 1))
   | "mkCand" => return .mkCand (← natsOfJson (← idx j 1))
   | "addCand" => return .addCand (← asNat (← idx j 1))
+  | "reparent" => return .reparent (← natsOfJson (← idx j 1)) (← asNat (← idx j 2))
   | "addRegion" => return .addRegion (← natsOfJson (← idx j 1)) (← natsOfJson (← idx j 2))
   | "clearProtos" => return .clearProtos
   | "clearCands" => return .clearCands
@@ -107,7 +108,7 @@ def expectAfter (e : Bool) (exist : Bool) : Op → Bool
   | .clearProtos | .clearCands | .clearSubs => if exist then true else e
   | .clearRegions => false
   | .addRegion _ _ => false
-  | .addProto _ | .mkCand _ => e
+  | .addProto _ | .mkCand _ | .reparent _ _ => e
   | .addSub _ | .addCand _ => false
 
 def runTracking (s : State) (e : Bool) : List Op → E State × Bool
